@@ -442,6 +442,61 @@ pub fn spaces(tier: Tier) -> Vec<Space> {
             }
         }));
     }
+    // (e+) signature opcodes fed a WELL-FORMED DER signature ending in each of the twelve standard flag bytes (and two
+    // undefined ones) x key shapes (valid compressed, valid uncompressed, uncompressed with the y coordinate off the
+    // curve, compressed with x off the curve, 65 zero bytes behind tag 04, the identity) x transaction shapes in which the
+    // executing input's index is below, equal to and above the number of outputs, and the declared input index is the
+    // last input or out of range. Only totality is judged.
+    {
+        let k = PrivateKey::from_hex("c0ffee254729296a45a3885639ac7e10f9d54979a0f5b2d1e8b1c4a7d3f6e5b9").unwrap();
+        let pkc = k.to_public_key().unwrap().to_bytes().unwrap();
+        let pku = k.compress_public_key(false).to_public_key().unwrap().to_bytes().unwrap();
+        let mut off_y = pku.clone();
+        off_y[64] ^= 1;
+        let mut off_x = vec![0x02u8];
+        off_x.extend(vec![0u8; 31]);
+        off_x.push(5);
+        let mut zeros = vec![0x04u8];
+        zeros.extend(vec![0u8; 64]);
+        let keys: Vec<(&str, Vec<u8>)> = vec![("compressed", pkc), ("uncompressed", pku), ("uncompressed, y off the curve", off_y), ("compressed, x off the curve", off_x), ("04 || 64 zero bytes", zeros), ("identity 00", vec![0u8])];
+        let der = k.sign_message(b"x").unwrap().to_der_bytes();
+        let flags: [u8; 14] = [0x01, 0x02, 0x03, 0x81, 0x82, 0x83, 0x41, 0x42, 0x43, 0xc1, 0xc2, 0xc3, 0x00, 0x44];
+        // (n_in, n_out, executing index)
+        let shapes: Vec<(usize, usize, usize)> = vec![(1, 0, 0), (1, 1, 0), (2, 1, 1), (2, 2, 1), (3, 1, 2), (3, 2, 2), (2, 0, 1), (3, 3, 0)];
+        let sigops = [0xacu8, 0xad, 0xae, 0xaf];
+        let (nk, nf, nsh) = (keys.len() as u64, flags.len() as u64, shapes.len() as u64);
+        v.push(Space::new("from-transaction-flagged-signatures", 4 * nk * nf * nsh, move |case, acc| {
+            let c = coords(case.idx, &[4, nk, nf, nsh]);
+            let op = sigops[c[0] as usize];
+            let (kname, key) = &keys[c[1] as usize];
+            let flag = flags[c[2] as usize];
+            let (n_in, n_out, idx) = shapes[c[3] as usize];
+            let mut sig = der.clone();
+            sig.push(flag);
+            let unlocking = if op >= 0xae { rs::serialize(&[Tok::Op(0x00), super::icommon::push_tok(&sig)]) } else { rs::serialize(&[super::icommon::push_tok(&sig)]) };
+            let locking = if op >= 0xae { rs::serialize(&[Tok::Op(0x51), super::icommon::push_tok(key), Tok::Op(0x51), Tok::Op(op)]) } else { rs::serialize(&[super::icommon::push_tok(key), Tok::Op(op)]) };
+            let mk = || -> Result<Interpreter, String> {
+                let mut tx = Transaction::new(1, 0);
+                for i in 0..n_in {
+                    let mut txin = TxIn::new(&[3u8 + i as u8; 32], i as u32, &Script::default(), Some(0xfffffffe));
+                    if i == idx {
+                        txin.set_unlocking_script(&Script::from_bytes(&unlocking).map_err(|e| e.to_string())?);
+                        txin.set_locking_script(&Script::from_bytes(&locking).map_err(|e| e.to_string())?);
+                        txin.set_satoshis(1000);
+                    }
+                    tx.add_input(&txin);
+                }
+                for o in 0..n_out {
+                    tx.add_output(&TxOut::new(1 + o as u64, &Script::from_bytes(&[0x51]).unwrap()));
+                }
+                Interpreter::from_transaction(&tx, idx).map_err(|e| e.to_string())
+            };
+            for f in check_total(&mk, acc) {
+                let input = json!({"sigop": opname(op), "key": kname, "flag_byte": format!("0x{:02x}", flag), "n_inputs": n_in, "n_outputs": n_out, "input_index": idx});
+                acc.violate(f.key, case.idx, case.json(input), f.detail);
+            }
+        }));
+    }
     // (e') signature opcodes reached after OP_CODESEPARATORs in every position: in the unlocking script, at top level of the
     // locking script, and inside taken / not-taken conditional branches of the locking script
     {
